@@ -231,6 +231,7 @@ def run(prog, rep, tier):
     if not gd:
         raise CheckerError("next_cat: call_sd_journal_get_data not found")
     nwc = 0
+    _cat_chain = []
     for c in cb_.live_calls():
         nm = (c.o or c.d).split("::")[-1]
         if nm not in ("push_str", "extend_from_slice", "extend", "append", "write_all"):
@@ -258,6 +259,7 @@ def run(prog, rep, tier):
         if not reached:
             continue
         nwc += 1
+        _cat_chain += chain
         bad_ = [x for x in chain if x in REWRITE]
         rep.examined(R99, cb_.path + "|message-write", sample={"line": c.line, "calls_between_value_and_write": chain})
         if bad_:
@@ -265,6 +267,40 @@ def run(prog, rep, tier):
                           "(entries whose message ends in a blank lose it; journalctl -o cat keeps it)" % (bad_[0], c.line))
     if nwc == 0:
         raise CheckerError("next_cat: no write of the value returned by sd_journal_get_data found")
+    # the "MESSAGE=" key is cut off exactly once between libsystemd's buffer and the write: either the
+    # wrapper returns the raw `FIELD=value` item and next_cat skips the key, or the wrapper returns the
+    # value and next_cat writes it whole.  Cutting twice removes the message text up to its own first '='.
+    wb_ = prog.body("s4lib::readers::journalreader::JournalReader::call_sd_journal_get_data")
+    raw_ = [c for c in wb_.live_calls() if c.d.split("::")[-1] in ("from_raw_parts", "from_raw_parts_mut")]
+    if len(raw_) != 1:
+        raise CheckerError("call_sd_journal_get_data: %d from_raw_parts calls" % len(raw_))
+    wchain = []
+    for bb in sorted(wb_.live):
+        for st in wb_.stmts(bb):
+            if st[0] == "=" and st[1] == [0] and st[2][0] == "agg" and isinstance(st[2][1], dict) and st[2][1].get("variant") == "Ok":
+                work = [st[2][2][0]]
+                seenw = set()
+                while work and len(seenw) < 40:
+                    cur = work.pop()
+                    for x in wb_.origins(cur, through_calls=("::deref", "::as_ref", "::as_bytes", "::as_slice", "::borrow")):
+                        if x[0] != "call" or x[1] in seenw:
+                            continue
+                        seenw.add(x[1])
+                        cc_ = [z for z in wb_.calls if z.bb == x[1]][0]
+                        if cc_.bb == raw_[0].bb:
+                            continue
+                        wchain.append((cc_.o or cc_.d).split("::")[-1])
+                        if cc_.args and cc_.args[0][0] != "k":
+                            work.append(cc_.args[0])
+    CUT = ("index", "get", "get_unchecked", "split_at", "strip_prefix", "split_once", "splitn")
+    cat_cuts = sorted(set(x for x in _cat_chain if x in CUT))
+    w_cuts = sorted(set(x for x in wchain if x in CUT))
+    rep.examined(R99, cb_.path + "|key-cut-once", sample={"wrapper_calls_between_raw_item_and_Ok": wchain, "cuts_in_wrapper": w_cuts, "cuts_in_next_cat": cat_cuts})
+    if w_cuts and cat_cuts:
+        rep.violation(R99, cb_.path + "|key-cut-once", "the MESSAGE item is shortened both in call_sd_journal_get_data (%s) and again in next_cat (%s): a message that contains '=' loses its text up to that '=' "
+                      "(`Command line: BOOT_IMAGE=/vmlinuz` is printed as `/vmlinuz`)" % (w_cuts[0], cat_cuts[0]))
+    if not w_cuts and not cat_cuts:
+        rep.violation(R99, cb_.path + "|key-cut-once", "neither call_sd_journal_get_data nor next_cat removes the `MESSAGE=` key: the cat rendering prints `MESSAGE=text` instead of the stored text")
 
     # ------------------------------------------------------------ R9.8 a signed instant does not wrap when it becomes the unsigned journal clock
     # libsystemd's realtime clock is unsigned microseconds.  A window bound before 1970 has a negative
@@ -339,6 +375,29 @@ def run(prog, rep, tier):
                           "the exported FIELD=value can then differ from the stored one (journalctl -o export prints it unmodified)" % (nm, c.line, sorted(str(o[2]).split("::")[-1] if o[0] == "call" else o[0] for o in os_)[:2]))
     if nw == 0:
         raise CheckerError("next_export: no data write in the field loop")
+    # every item the enumeration returned is written: from the Found arm no path goes round the loop
+    # (or leaves it) without the write.  A content test on the item (`continue` unless it looks like
+    # FIELD=value, has a non-empty value, is UTF-8 ...) silently drops stored fields.
+    dest97 = xb.term(en.bb)[3]
+    found_bbs = [bb for bb in sorted(Lx) if any(st[0] == "=" and st[2][0] == "use" and st[2][1][0] != "k" and st[2][1][1][0] == dest97[0]
+                                                 and any(isinstance(e, list) and e[:2] == ["as", "Found"] for e in st[2][1][1][1:]) for st in xb.stmts(bb))]
+    wr97 = set()
+    for c in xb.live_calls():
+        if c.bb in Lx and (c.o or c.d).split("::")[-1] in ("push_str", "extend_from_slice", "extend", "append", "write", "write_all") and len(c.args) > 1 and c.args[1][0] != "k":
+            os_ = xb.origins(c.args[1], through_calls=("::deref", "::as_ref", "::as_bytes", "::as_slice", "::borrow"))
+            if os_ and all(o[0] == "call" and o[1] == en.bb for o in os_):
+                wr97.add(c.bb)
+    if len(found_bbs) != 1:
+        raise CheckerError("next_export: %d Found arms of the enumerate call in the field loop" % len(found_bbs))
+    fb97 = found_bbs[0]
+    hdr97 = min(hs, key=lambda h: len(xb.loop_blocks(h)))
+    outs97 = {s_ for bb in Lx for s_ in xb.succ[bb] if s_ not in Lx and s_ in xb.live}
+    skips = [t_ for t_ in sorted(outs97 | {hdr97}) if fb97 not in wr97 and t_ in xb.reachable(fb97, wr97 - {fb97})]
+    rep.examined(R97, "%s|every-item-written" % xb.path, sample={"found_arm": fb97, "item_writes": sorted(wr97), "loop_header": hdr97, "ways_round_the_write": skips})
+    if skips:
+        rep.violation(R97, "%s|every-item-written" % xb.path, "next_export: after the enumeration returned an item there is a path to %s that does not write it; "
+                      "stored fields that fail the added test (an empty value, no '=', ...) are missing from the export rendering while journalctl -o export prints them" % (
+                          "the next iteration" if hdr97 in skips else "the end of the loop"))
 
     # ------------------------------------------------------------ R9.6 (lift: C05 rules at the extraction sites)
     # "A compressed or archived journal file prints the same as the plain file": the file is unpacked by
